@@ -42,3 +42,41 @@ class Timer:
         r = solver.check()
         self.t += time.time() - t0
         return r
+
+
+def concretize(obj, model):
+    """replace every z3 term inside a JSON-like structure by its value under the model"""
+    def c(v):
+        if isinstance(v, dict):
+            return {str(k): c(x) for k, x in v.items()}
+        if isinstance(v, (list, tuple)):
+            return [c(x) for x in v]
+        if isinstance(v, (bool, int, float, str)) or v is None:
+            return v
+        if isinstance(v, z3.ExprRef):
+            e = model.eval(v, model_completion=True)
+            if z3.is_bool(e):
+                return z3.is_true(e)
+            if z3.is_string(e):
+                return e.as_string()
+            if z3.is_bv(e) or z3.is_int(e):
+                return e.as_long()
+            if z3.is_fp(e):
+                return float(e.as_string()) if hasattr(e, "as_string") else 0.0
+            return str(e)
+        return str(v)
+    return c(obj)
+
+
+def native_histories(prop, module, mode, histories, extra=None, message=""):
+    """write a histories replay file and run it on the native build; returns run_replay's dict (+ path) or an error dict"""
+    from lib import native
+    exe, berr = native.build()
+    body = {"engine": "smt", "mode": mode, "histories": histories, "message": message}
+    body.update(extra or {})
+    path = native.write_replay(prop, module, "history" if mode == "violation" else "validate", [], body)
+    if exe is None:
+        return {"outcome": "error", "message": "native build failed: " + berr[-300:], "path": path, "n": len(histories)}
+    rr = native.run_replay(exe, path)
+    mm = [l for l in rr.get("output", "").splitlines() if "VERIF-VALIDATE-MISMATCH" in l]
+    return {"outcome": rr["outcome"], "message": (mm[0][:500] if mm else rr["message"]), "path": path, "n": len(histories)}
